@@ -616,6 +616,9 @@ class World:
             if fault_fired:
                 ctx.fault("hdf5_read_" + ff["kind"])
                 ctx.probe("read_repeated_after_transient_hdf5_fault")
+                # this dataset object has seen a fault: it may have given up a basin for good; progress is demanded again from
+                # a freshly opened root (heal), as after network faults
+                self.faulted = True
         ok, res = self.guarded("C14.read.raises", rd, allow=(KeyError,) if not fault_fired else (KeyError, OSError), sig={"site": "read"})
         ctx.checked()
         ctx.state_ops += 1
